@@ -123,6 +123,61 @@ func TestGovcReplay(t *testing.T) {
 			check(kt, fmt.Sprintf("ketama ring of %d endpoints", nodes), ts, nodes)
 		}
 	}
+	// placement must not depend on the order the endpoints are listed in: the same endpoints
+	// (some sharing one Cap'n Proto address, as in a file-loaded default) reversed, rotated, interleaved
+	for _, nodes := range []int{3, 4, 7} {
+		var eps []Endpoint
+		for i := 0; i < nodes; i++ {
+			eps = append(eps, Endpoint{Address: fmt.Sprintf("node-%d:10901", i), CapNProtoAddress: "shared:19391"})
+		}
+		orders := map[string][]Endpoint{"listed in address order": append([]Endpoint(nil), eps...)}
+		rev := append([]Endpoint(nil), eps...)
+		for i, j := 0, len(rev)-1; i < j; i, j = i+1, j-1 {
+			rev[i], rev[j] = rev[j], rev[i]
+		}
+		orders["reversed"] = rev
+		orders["rotated"] = append(append([]Endpoint(nil), eps[1:]...), eps[0])
+		var inter []Endpoint
+		for i := 0; i < nodes; i += 2 {
+			inter = append(inter, eps[i])
+		}
+		for i := 1; i < nodes; i += 2 {
+			inter = append(inter, eps[i])
+		}
+		orders["interleaved"] = inter
+		for _, algo := range []string{"hashmod", "ketama"} {
+			place := map[string]string{}
+			for name, list := range orders {
+				var h Hashring
+				var err error
+				if algo == "hashmod" {
+					h, err = newSimpleHashring(append([]Endpoint(nil), list...))
+				} else {
+					h, err = newKetamaHashring(append([]Endpoint(nil), list...), 16, uint64(nodes))
+				}
+				if err != nil {
+					continue
+				}
+				var got []string
+				for i := 0; i < 40; i++ {
+					ts := &prompb.TimeSeries{Labels: []labelpb.ZLabel{{Name: "a", Value: fmt.Sprint(i)}}}
+					for n := 0; n < 2 && n < nodes; n++ {
+						e, err := h.GetN("tenant", ts, uint64(n))
+						if err == nil {
+							got = append(got, e.Address)
+						}
+					}
+				}
+				place[name] = strings.Join(got, ",")
+			}
+			ref := place["listed in address order"]
+			for name, g := range place {
+				if g != ref && len(msgs) < 4 {
+					msgs = append(msgs, fmt.Sprintf("%s ring of %d endpoints: with the endpoints %s the series are placed differently than with the same endpoints listed in address order", algo, nodes, name))
+				}
+			}
+		}
+	}
 	if len(msgs) > 0 {
 		fmt.Println("REPLAY: reproduced:", strings.Join(msgs, "; "))
 		t.Fail()
